@@ -5,10 +5,23 @@ NOTES = ("Machine-checked proof in Coq 8.16 over executable Gallina models of th
          "(translator -> coq/gen). Oracles (math/big, encoding/*, x/net/html, node, strace) only search for failing inputs. "
          "fix: commits and open findings are listed in known_findings.json.")
 ENGINES = [
+    {"name": "Json", "path": "coq/theories/Json", "serves_properties": ["C07", "C09", "C10"],
+     "kind_free_text": "F2 Gallina model of json.Minify over parser events + JSON value spec; harness/cmd/jsoncheck"},
     {"name": "Num", "path": "coq/theories/Num", "serves_properties": ["C08", "C07", "C04", "C05"],
      "kind_free_text": "F2 Gallina model of minify.Number/Decimal (precision 0) + lexeme grammar and value spec; extracted to OCaml; harness/cmd/numcheck"},
 ]
 CHECKS = {
+    "C07": {
+        "engine": "Json", "design_ref": "DESIGN.md section 4 / C07",
+        "technique": "Coq proof (induction over JSON values) on an extracted model of the separator state machine + correspondence on real parser events",
+        "text": ("Theorems (Props/C07.v), for every JSON value of any depth: the model of json.Minify's loop renders exactly the compact form of the same "
+                 "tree (nesting, member order, duplicate keys, byte-identical strings/literals; numbers through Number + zero repair), and with KeepNumbers "
+                 "every lexeme is byte-identical; 'never longer' is refuted with witness 7E-3 (known finding K48). Tie: the extracted model consumes the "
+                 "event stream of the real parse/json parser for each generated document and must reproduce json.Minify's bytes; the spec's events_of is "
+                 "compared with the real parser's events. Oracle: encoding/json token walk with math/big numbers."),
+        "note": ("Trusted: Coq kernel, extraction, driver, JsonSpec.v as the meaning of 'same value', harness, encoding/json. The parse/json parser is run, "
+                 "not modelled; numeric equality of rewritten numbers rests on C08."),
+    },
     "C08": {
         "engine": "Num", "design_ref": "DESIGN.md section 4 / C08",
         "technique": "Coq proof over an extracted F2 model + exhaustive correspondence/oracle enumeration",
